@@ -35,6 +35,11 @@ def run(ctx):
     ctx.samples = tc.sample(progs, 2) + [{"long_history": longs[0]["kind"], "ops": len(longs[0]["ops"])}]
     ctx.distinct = tc.distinct(progs + rnd) | {p["kind"] + str(len(p["ops"])) for p in longs}
     tc.judge(ctx, programs, "c01")
+    # the user-defined generic table (Sdt): every depth-2 history of MC_Sdt plus seeded long histories
+    from props import c13
+    res = vlib.model_check(ctx, "MC_Sdt_quick.cfg", "MC_Sdt.tla", workers=8)
+    sdt = res.replays + [c13.random_history(rng, 1500 if th else 400, 10) for _ in range(30 if th else 8)]
+    vlib.run_and_judge(ctx, sdt, "Trace_Sdt.cfg", "Trace_Sdt.tla", "c01sdt")
     return vlib.finish(ctx, rule="histories = all operation sequences of MC_Tables to the depth bound over all 21 table kinds "
                        "(TLC-enumerated, replayed on the crate) + 300-step histories per body table observed at every step + "
                        "65k-step histories observed sparsely + seeded random programs; predicate Sum8(image)=0 (RSDP: also the "
